@@ -46,6 +46,23 @@ func extra() []scen.Conc {
 			scen.Conc{Name: "race/filterE(" + scen.KindNames[k] + ")/2x2+2query+reset", Tree: scen.FilterE(scen.Leaf(k)).Number(), Prime: []scen.Msg{unmet}, Threads: prog, Queries: 2, Reset: true},
 		)
 	}
+	// result aliasing (see scen.ConcScenarios): more traffic and two queries on the primed groups
+	metM := scen.Msg{Met: 1 << uint(scen.KMethod)}
+	metMU := scen.Msg{Met: 1<<uint(scen.KMethod) | 1<<uint(scen.KURL)}
+	for _, n := range []int{3, 5, 6, 7} {
+		var p2, p3 []scen.Msg
+		for i := 0; i < n-1; i++ {
+			p2 = append(p2, metM)
+			p3 = append(p3, metMU)
+		}
+		p2 = append(p2, unmet)
+		p3 = append(p3, unmet)
+		out = append(out,
+			scen.Conc{Name: fmt.Sprintf("race/group(failure,method)/prime%d+2x2+2query", n), Tree: scen.Group(scen.Leaf(scen.KFailure), scen.Leaf(scen.KMethod)).Number(), Prime: p2, Threads: [][]scen.Msg{{metM, metM}, {metM, unmet}}, Queries: 2},
+			scen.Conc{Name: fmt.Sprintf("race/group(failure,method,url)/prime%d+2x2+2query", n), Tree: scen.Group(scen.Leaf(scen.KFailure), scen.Leaf(scen.KMethod), scen.Leaf(scen.KURL)).Number(), Prime: p3, Threads: [][]scen.Msg{{metMU, metMU}, {metMU, unmet}}, Queries: 2},
+			scen.Conc{Name: fmt.Sprintf("race/filterE(group(failure,method))/prime%d+2x2+2query", n), Tree: scen.FilterE(scen.Group(scen.Leaf(scen.KFailure), scen.Leaf(scen.KMethod))).Number(), Prime: p2, Threads: [][]scen.Msg{{metM, metM}, {metM, unmet}}, Queries: 2},
+		)
+	}
 	return out
 }
 
